@@ -632,8 +632,8 @@ func mergeValuesEqual(value1, value2 *ast.Value) error {
 	if value1.Kind != value2.Kind {
 		return errors.New("encountered inconsistent kinds")
 	}
-	// if the raw values are not the same
-	if value1.Raw != value2.Raw {
+	// if the values are not the same (lists and objects keep theirs in their children, not in Raw)
+	if value1.String() != value2.String() {
 		return errors.New("encountered different raw values")
 	}
 
